@@ -3976,3 +3976,238 @@ Proof.
     by (rewrite <- Hrev, rev_length; lia).
   rewrite E. exact Hfail.
 Qed.
+
+(* ---------------------------------------------- hand model: calls in sequence *)
+(* a computation that leaves the stack vector alone and does not raise sp *)
+Definition regs_mono {A} (m : M A) : Prop :=
+  forall s a s', m s = ROk a s' -> stack s' = stack s /\ sp s' <= sp s.
+
+Lemma mono_ret {A} (a : A) : regs_mono (ret a).
+Proof. intros s x s' [= <- <-]. split; [reflexivity | lia]. Qed.
+Lemma mono_fail {A} e : regs_mono (@fail A e).
+Proof. intros s x s' E. discriminate. Qed.
+Lemma mono_bind {A B} (m : M A) (f : A -> M B) :
+  regs_mono m -> (forall a, regs_mono (f a)) -> regs_mono (bindM m f).
+Proof.
+  intros Hm Hf s b s' E. unfold bindM in E. destruct (m s) as [a s1| | |] eqn:E1; try discriminate.
+  destruct (Hm _ _ _ E1) as (A1 & A2). destruct (Hf a _ _ _ E) as (B1 & B2). split; [congruence | lia].
+Qed.
+Lemma mono_lift {A} (o : out A) : regs_mono (lift o).
+Proof. intros s a s' E. unfold lift in E. destruct o; try discriminate. injection E as <- <-. split; [reflexivity|lia]. Qed.
+Lemma mono_pop_raw : regs_mono pop_raw.
+Proof.
+  intros s a s' E. unfold pop_raw in E. destruct (sp s =? 0); [discriminate|].
+  destruct (list_get (stack s) (sp s)); [|discriminate]. injection E as <- <-. cbn [with_sp with_stack stack sp]. split; [reflexivity|lia].
+Qed.
+Lemma mono_hderef v : regs_mono (hderef v).
+Proof. intros s a s' E. rewrite hderef_eq in E. exact (mono_lift _ s a s' E). Qed.
+Lemma mono_hput v : regs_mono (hput v).
+Proof.
+  intros s a s' E. unfold hput in E. destruct (heap_put (hp s) v). injection E as <- <-.
+  cbn [with_heap stack sp]. split; [reflexivity|lia].
+Qed.
+Lemma mono_hmaybe_put v : regs_mono (hmaybe_put v).
+Proof.
+  intros s a s' E. unfold hmaybe_put in E. destruct (heap_maybe_put (hp s) v). injection E as <- <-.
+  cbn [with_heap stack sp]. split; [reflexivity|lia].
+Qed.
+Lemma mono_as_cell bn f v : regs_mono (as_cell bn f v).
+Proof. intros s a s' E. unfold as_cell in E. exact (mono_lift _ s a s' E). Qed.
+Lemma mono_fail_cell {A} f v : regs_mono (@fail_cell f A v).
+Proof. unfold fail_cell. apply mono_bind; [apply mono_as_cell | intros; apply mono_fail]. Qed.
+Lemma mono_pop_argc lo hi : regs_mono (pop_argc lo hi).
+Proof.
+  unfold pop_argc. apply mono_bind; [apply mono_pop_raw|]. intros v.
+  destruct v; try apply mono_fail. destruct (_ || _); [apply mono_fail | apply mono_ret].
+Qed.
+Lemma mono_pop_value : regs_mono pop_value.
+Proof. unfold pop_value, pop_deref. apply mono_bind; [apply mono_pop_raw | intros; apply mono_hderef]. Qed.
+
+Lemma mono_car f : regs_mono (car f).
+Proof.
+  unfold car. apply mono_bind; [apply mono_pop_argc|]. intros _.
+  apply mono_bind; [apply mono_pop_value|]. intros v. destruct v; try apply mono_fail_cell. apply mono_ret.
+Qed.
+Lemma mono_cdr f : regs_mono (cdr f).
+Proof.
+  unfold cdr. apply mono_bind; [apply mono_pop_argc|]. intros _.
+  apply mono_bind; [apply mono_pop_value|]. intros v. destruct v; try apply mono_fail_cell. apply mono_ret.
+Qed.
+Lemma mono_type_pred p : regs_mono (type_pred p).
+Proof.
+  unfold type_pred. apply mono_bind; [apply mono_pop_argc|]. intros _.
+  apply mono_bind; [apply mono_pop_value|]. intros v. apply mono_ret.
+Qed.
+Lemma mono_call_builtin b : regs_mono b -> regs_mono (call_builtin b).
+Proof.
+  intros Hb. unfold call_builtin. apply mono_bind; [exact Hb|]. intros r.
+  destruct r; try apply mono_hmaybe_put. apply mono_ret.
+Qed.
+
+(* a call keeps the stack pointer inside the stack vector *)
+Lemma callb_inv b args s r s' :
+  regs_mono b -> sp s < len (stack s) -> callb b args s = ROk r s' -> sp s' < len (stack s').
+Proof.
+  intros Hb Hinv E. unfold callb in E.
+  destruct (push_all_spec args s [] Hinv I) as (s0 & E0 & Hinv0 & _).
+  destruct (push_spec s0 (VArgc (len args)) Hinv0) as (s1 & E1 & _ & Hinv1 & _).
+  unfold apply_builtin in E. rewrite (bind_ok _ _ _ _ _ E0), (bind_ok _ _ _ _ _ E1) in E.
+  destruct (mono_call_builtin b Hb _ _ _ E) as (A1 & A2). rewrite A1. lia.
+Qed.
+
+Lemma callb_car fuel s v a d :
+  sp s < len (stack s) -> heap_deref (hp s) v = Ok (VPair a d) ->
+  exists s', callb (car fuel) [v] s = ROk (VPtr a) s' /\ hp s' = hp s /\ st s' = st s /\
+             sp s' < len (stack s').
+Proof.
+  intros Hinv Hd.
+  destruct (apply_builtin_called (car fuel) [v] s Hinv) as (s1 & E & Hc & E1 & E2).
+  unfold called_with in Hc. cbn [len length rev app N.of_nat Pos.of_succ_nat] in Hc.
+  pose proof (stack_top_tail _ _ _ _ Hc) as H1.
+  assert (Hrun : car fuel s1 = ROk (VPtr a) (with_sp s1 (sp s1 - 1 - 1))).
+  { unfold car. pop_argc_tac Hc s1 1 1 (Some 1).
+    unfold bindM at 1. rewrite (pop_value_top (with_sp s1 (sp s1 - 1)) v [] H1). unfold lift.
+    change (hp (with_sp s1 (sp s1 - 1))) with (hp s1). rewrite E1, Hd. reflexivity. }
+  assert (Ecall : callb (car fuel) [v] s = ROk (VPtr a) (with_sp s1 (sp s1 - 1 - 1))).
+  { unfold callb. rewrite E. unfold call_builtin. rewrite (bind_ok _ _ _ _ _ Hrun). reflexivity. }
+  eexists. refine (conj Ecall (conj E1 (conj E2 _))).
+  exact (callb_inv _ _ _ _ _ (mono_car fuel) Hinv Ecall).
+Qed.
+
+Lemma callb_cdr fuel s v a d :
+  sp s < len (stack s) -> heap_deref (hp s) v = Ok (VPair a d) ->
+  exists s', callb (cdr fuel) [v] s = ROk (VPtr d) s' /\ hp s' = hp s /\ st s' = st s /\
+             sp s' < len (stack s').
+Proof.
+  intros Hinv Hd.
+  destruct (apply_builtin_called (cdr fuel) [v] s Hinv) as (s1 & E & Hc & E1 & E2).
+  unfold called_with in Hc. cbn [len length rev app N.of_nat Pos.of_succ_nat] in Hc.
+  pose proof (stack_top_tail _ _ _ _ Hc) as H1.
+  assert (Hrun : cdr fuel s1 = ROk (VPtr d) (with_sp s1 (sp s1 - 1 - 1))).
+  { unfold cdr. pop_argc_tac Hc s1 1 1 (Some 1).
+    unfold bindM at 1. rewrite (pop_value_top (with_sp s1 (sp s1 - 1)) v [] H1). unfold lift.
+    change (hp (with_sp s1 (sp s1 - 1))) with (hp s1). rewrite E1, Hd. reflexivity. }
+  assert (Ecall : callb (cdr fuel) [v] s = ROk (VPtr d) (with_sp s1 (sp s1 - 1 - 1))).
+  { unfold callb. rewrite E. unfold call_builtin. rewrite (bind_ok _ _ _ _ _ Hrun). reflexivity. }
+  eexists. refine (conj Ecall (conj E1 (conj E2 _))).
+  exact (callb_inv _ _ _ _ _ (mono_cdr fuel) Hinv Ecall).
+Qed.
+
+Lemma callb_car_fail fuel s v c :
+  sp s < len (stack s) -> heap_deref (hp s) v = Ok c -> is_pair c = false ->
+  render_fail (callb (car fuel) [v] s) /\ render_fail (callb (cdr fuel) [v] s).
+Proof.
+  intros Hinv Hd Hp. split.
+  - destruct (apply_builtin_called (car fuel) [v] s Hinv) as (s1 & E & Hc & E1 & E2).
+    unfold called_with in Hc. cbn [len length rev app N.of_nat Pos.of_succ_nat] in Hc.
+    pose proof (stack_top_tail _ _ _ _ Hc) as H1.
+    unfold callb. rewrite E. unfold call_builtin. apply render_fail_bind.
+    unfold car. pop_argc_tac Hc s1 1 1 (Some 1).
+    unfold bindM at 1. rewrite (pop_value_top (with_sp s1 (sp s1 - 1)) v [] H1). unfold lift.
+    change (hp (with_sp s1 (sp s1 - 1))) with (hp s1). rewrite E1, Hd.
+    destruct c; try discriminate Hp; apply fail_cell_render_fail.
+  - destruct (apply_builtin_called (cdr fuel) [v] s Hinv) as (s1 & E & Hc & E1 & E2).
+    unfold called_with in Hc. cbn [len length rev app N.of_nat Pos.of_succ_nat] in Hc.
+    pose proof (stack_top_tail _ _ _ _ Hc) as H1.
+    unfold callb. rewrite E. unfold call_builtin. apply render_fail_bind.
+    unfold cdr. pop_argc_tac Hc s1 1 1 (Some 1).
+    unfold bindM at 1. rewrite (pop_value_top (with_sp s1 (sp s1 - 1)) v [] H1). unfold lift.
+    change (hp (with_sp s1 (sp s1 - 1))) with (hp s1). rewrite E1, Hd.
+    destruct c; try discriminate Hp; apply fail_cell_render_fail.
+Qed.
+
+Lemma callb_pred p s v c :
+  sp s < len (stack s) -> heap_deref (hp s) v = Ok c ->
+  exists s', callb (type_pred p) [v] s = ROk (VBool (p c)) s' /\ hp s' = hp s /\ st s' = st s /\
+             sp s' < len (stack s').
+Proof.
+  intros Hinv Hd.
+  destruct (apply_builtin_called (type_pred p) [v] s Hinv) as (s1 & E & Hc & E1 & E2).
+  unfold called_with in Hc. cbn [len length rev app N.of_nat Pos.of_succ_nat] in Hc.
+  pose proof (stack_top_tail _ _ _ _ Hc) as H1.
+  assert (Hrun : type_pred p s1 = ROk (VBool (p c)) (with_sp s1 (sp s1 - 1 - 1))).
+  { unfold type_pred. pop_argc_tac Hc s1 1 1 (Some 1).
+    unfold bindM at 1. rewrite (pop_value_top (with_sp s1 (sp s1 - 1)) v [] H1). unfold lift.
+    change (hp (with_sp s1 (sp s1 - 1))) with (hp s1). rewrite E1, Hd. reflexivity. }
+  assert (Ecall : callb (type_pred p) [v] s = ROk (VBool (p c)) (with_sp s1 (sp s1 - 1 - 1))).
+  { unfold callb. rewrite E. unfold call_builtin. rewrite (bind_ok _ _ _ _ _ Hrun). reflexivity. }
+  eexists. refine (conj Ecall (conj E1 (conj E2 _))).
+  exact (callb_inv _ _ _ _ _ (mono_type_pred p) Hinv Ecall).
+Qed.
+
+Lemma truthy_bool b s : truthy (VBool b) s = ROk b s.
+Proof. unfold truthy, bindM. rewrite hderef_eq. cbn [heap_deref lift ret]. destruct b; reflexivity. Qed.
+
+Lemma length_go_spec fuel s0 v cells e :
+  pchain (hp s0) v cells e ->
+  forall s f ce, hp s = hp s0 -> sp s < len (stack s) -> (length cells + 1 <= f)%nat ->
+    heap_deref (hp s0) e = Ok ce ->
+    if is_nil ce then
+      exists s', length_go fuel f v s = ROk (VNum (Fixnum (Z.of_nat (length cells)))) s' /\
+                 hp s' = hp s0 /\ st s' = st s /\ sp s' < len (stack s')
+    else render_fail (length_go fuel f v s).
+Proof.
+  intros Hc. induction Hc as [v c Hd Hp | v a d cells e Hd Hc IH]; intros s f ce Eh Hinv Hf Hce.
+  - rewrite Hd in Hce. injection Hce as <-.
+    destruct f as [|f]; [cbn in Hf; lia|]. cbn [length_go length].
+    rewrite <- Eh in Hd.
+    destruct (callb_pred is_nil s v c Hinv Hd) as (s1 & E1 & Eh1 & Es1 & Hinv1).
+    unfold is_null. rewrite (bind_ok _ _ _ _ _ E1), (bind_ok _ _ _ _ _ (truthy_bool _ s1)).
+    destruct (is_nil c) eqn:En.
+    + exists s1. cbn [ret Z.of_nat]. repeat split; auto; congruence.
+    + apply render_fail_bind. rewrite <- Eh1 in Hd.
+      exact (proj2 (callb_car_fail fuel s1 v c Hinv1 Hd Hp)).
+  - destruct f as [|f]; [cbn in Hf; lia|]. cbn [length_go length].
+    rewrite <- Eh in Hd.
+    destruct (callb_pred is_nil s v _ Hinv Hd) as (s1 & E1 & Eh1 & Es1 & Hinv1).
+    unfold is_null. rewrite (bind_ok _ _ _ _ _ E1), (bind_ok _ _ _ _ _ (truthy_bool _ s1)).
+    cbn [is_nil]. rewrite <- Eh1 in Hd.
+    destruct (callb_cdr fuel s1 v a d Hinv1 Hd) as (s2 & E2 & Eh2 & Es2 & Hinv2).
+    rewrite (bind_ok _ _ _ _ _ E2).
+    cbn [length] in Hf.
+    pose proof (IH s2 f ce ltac:(congruence) Hinv2 ltac:(lia) Hce) as R.
+    destruct (is_nil ce).
+    + destruct R as (s' & E & Eh' & Es' & Hinv').
+      exists s'. rewrite (bind_ok _ _ _ _ _ E).
+      rewrite (bind_ok _ _ _ _ _ (hderef_ok s' (VNum _) _ eq_refl)).
+      unfold ret. repeat split; auto; try congruence.
+      do 3 f_equal. lia.
+    + apply render_fail_bind. exact R.
+Qed.
+
+(* (length l) on the hand model: the number of pairs of a proper list, an error on an
+   improper one; nothing changes *)
+Theorem prelude_length_spec fuel s v xs e :
+  values_are_refs s -> val_ok s v -> sp s < len (stack s) ->
+  achain (abs s) (absv s v) xs e -> (length xs + 1 <= fuel)%nat ->
+  (e = AImm VNil ->
+     exists s', p_length fuel [v] s = ROk (VNum (Fixnum (Z.of_nat (length xs)))) s' /\
+                hp s' = hp s /\ st s' = st s) /\
+  (e <> AImm VNil -> render_fail (p_length fuel [v] s)).
+Proof.
+  intros W Hv Hinv Hch Hf.
+  destruct (achain_pchain s W _ _ _ Hch v Hv eq_refl) as (cells & e' & Hpc & Hm & He & Hve).
+  assert (Hlen : length cells = length xs) by (rewrite <- Hm; now rewrite map_length).
+  destruct (pchain_end_deref _ _ _ _ Hpc) as (ce & Hce & Hpe).
+  assert (Hnil : e = AImm VNil <-> ce = VNil) by (rewrite <- He; apply (nil_deref s e' ce Hve Hce)).
+  pose proof (length_go_spec fuel s v cells e' Hpc s fuel ce eq_refl Hinv ltac:(lia) Hce) as R.
+  unfold p_length. split.
+  - intros Ee. assert (ce = VNil) by (now apply Hnil). subst ce. cbn [is_nil] in R.
+    destruct R as (s' & E & Eh & Es & _). exists s'. rewrite Hlen in E. auto.
+  - intros Ene. assert (Hn : ce <> VNil) by (intros E0; apply Ene; now apply Hnil).
+    destruct ce; try contradiction; exact R.
+Qed.
+
+(* (cadr o) on the hand model *)
+Theorem prelude_cadr_spec fuel s o a d a2 d2 :
+  sp s < len (stack s) ->
+  heap_deref (hp s) o = Ok (VPair a d) -> heap_get (hp s) d = Ok (VPair a2 d2) ->
+  exists s', p_cadr fuel [o] s = ROk (VPtr a2) s' /\ hp s' = hp s /\ st s' = st s.
+Proof.
+  intros Hinv Ho Hd. unfold p_cadr.
+  destruct (callb_cdr fuel s o a d Hinv Ho) as (s1 & E1 & Eh1 & Es1 & Hinv1).
+  rewrite (bind_ok _ _ _ _ _ E1).
+  assert (Hd1 : heap_deref (hp s1) (VPtr d) = Ok (VPair a2 d2)) by (cbn [heap_deref]; now rewrite Eh1).
+  destruct (callb_car fuel s1 (VPtr d) a2 d2 Hinv1 Hd1) as (s2 & E2 & Eh2 & Es2 & _).
+  exists s2. repeat split; auto; congruence.
+Qed.
